@@ -156,6 +156,11 @@ typedef void (*simnet_connect_hook)(const void *sa, unsigned salen, uint64_t now
 void simnet_set_connect_hook(simnet_connect_hook h);
 // per-connection override of segmentation: mode as sim_config.seg_mode
 void simnet_set_seg(int fd, int mode, int k);
+// the same two controls applied to the OTHER end of fd's connection (the
+// library's end of a raw peer's socket): cut its reads (dir 0) / writes (dir 1)
+// at an absolute stream offset, override its segmentation mode
+void simnet_set_cut_peer(int fd, int dir, long offset);
+void simnet_set_seg_peer(int fd, int mode, int k);
 // poll() on simulated fds without blocking: returns revents for POLLIN
 int simnet_poll_in(int fd);
 
